@@ -49,7 +49,7 @@ Theorem C01a_wf_term_meaning : forall (is_alnum : N -> bool) (E : efmt) (t : ter
   | TNum _ i => i <=? usize_max
   | TSet _ l => nonnil l && forallb (wf_term is_alnum E) l && nodup_eqb l
   | TVec _ l => nonnil l && forallb (wf_term is_alnum E) l
-  | TImg _ i l => (i <=? nlen l) && forallb (wf_term is_alnum E) l && negb (existsb (fun x => term_eqb x placeholder) l)
+  | TImg _ i l => (i <=? nlen l) && forallb (wf_term is_alnum E) l && negb (existsb (fun x => term_eqb x placeholder) (take (N.to_nat i) l))
   | TBox1 _ a => wf_term is_alnum E a
   | TBox2 _ a b => wf_term is_alnum E a && wf_term is_alnum E b
   end.
@@ -62,6 +62,12 @@ Theorem C01a_K1_witness : forall (is_alnum : N -> bool) (E : efmt), In E shipped
             odesugar s = Some (TImg ImageExtension 0 [placeholder; TNum Interval 1]) /\ odesugar s <> Some k1_term.
 Proof. exact K1_witness. Qed.
 Print Assumptions C01a_K1_witness.
+
+(* the K1 exclusion is tight: the same text with index 0 (placeholder at/after the index) is well-formed *)
+Example ex_C01a_k1_boundary : forall (is_alnum : N -> bool) (E : efmt), In E shipped_formats ->
+  let t := TImg ImageExtension 0 [placeholder; TNum Interval 1] in
+  wf_term is_alnum E t = true /\ fmt_term E t = fmt_term E k1_term.
+Proof. exact ex_k1_boundary. Qed.
 
 Theorem C01a_sdepth_le_render_S : forall (E : efmt), total_ok E = true ->
   forall s : sterm, (sdepth s <= S (length (render E s)))%nat.
